@@ -5,7 +5,7 @@ import ast
 from typing import Dict, List, Optional, Set, Tuple
 
 from ..absint import eval_test
-from ..cfg import CFG, EXIT, symbolic_paths
+from ..cfg import CFG, EXIT, symbolic_block_paths, symbolic_paths
 from ..exprnorm import norm_test
 from ..report import Run
 from ..src import (AnalysisError, ClassInfo, FuncInfo, Program, call_name, stmt_key,
@@ -226,24 +226,51 @@ def _lookup(prog: Program, run: Run) -> None:
     u = prog.func("OdxLinkDatabase.update")
     s = ast.unparse(u.node)
     cfg = CFG(u.node)
-    # the ID-level setdefault (a fragment-level `self._db.setdefault(frag, {})` may exist too)
-    sd = [x for x in walk_no_nested(u.node) if isinstance(x, ast.Call) and call_name(x) ==
-          "setdefault" and x.args and "local_id" in ast.unparse(x.args[0])]
-    asg = [x for x in walk_no_nested(u.node) if isinstance(x, ast.Assign) and isinstance(
-        x.targets[0], ast.Subscript) and "local_id" in ast.unparse(x.targets[0])]
-    ok = False
-    if sd and asg:
-        c1 = [(ast.unparse(t), p) for t, p in cfg.branch_conditions(cfg.node_of(_stmt(u.node,
-                                                                                      sd[0])))]
-        c2 = [(ast.unparse(t), p) for t, p in cfg.branch_conditions(cfg.node_of(asg[0]))]
-        ok = ("overwrite", False) in c1 and ("overwrite", True) in c2
-    if ok:
-        run.ok(R, "OdxLinkDatabase.update", "overwrite=False keeps existing entries (setdefault), "
-               "overwrite=True replaces", u.loc)
+    # one registration, as a decision table over (overwrite, ID already present in the
+    # fragment's table): the object is written unless overwrite is off and the ID is present
+    ov = u.params()[2] if len(u.params()) > 2 else "overwrite"
+    inner = [l for l in ast.walk(u.node) if isinstance(l, ast.For) and ast.unparse(
+        l.iter).endswith(".doc_fragments")]
+    bad_cases: List[str] = []
+    if len(inner) != 1:
+        bad_cases.append("no loop over the fragments of each ID")
+    else:
+        it_paths = symbolic_block_paths(inner[0].body)
+        for overwrite in (True, False):
+            for present in (True, False):
+                def leaf(t: ast.AST, present=present):
+                    if isinstance(t, ast.Compare) and len(t.ops) == 1 and isinstance(
+                            t.ops[0], (ast.In, ast.NotIn)) and ast.unparse(t.left).endswith(
+                                ".local_id"):
+                        return present if isinstance(t.ops[0], ast.In) else not present
+                    return None
+                env = {ov: overwrite}
+                outs = set()
+                for p_ in it_paths:
+                    if not all(eval_test(t, env, leaf) in (None, pol) for t, pol in p_.conds):
+                        continue
+                    wrote = any(tg.endswith(".local_id]") for tg, _v in p_.stores)
+                    for st in p_.trace:
+                        for x in ast.walk(st):
+                            if isinstance(x, ast.Call) and call_name(x) == "setdefault" and \
+                                    x.args and ast.unparse(x.args[0]).endswith(".local_id") and \
+                                    not present:
+                                wrote = True
+                    outs.add(wrote)
+                want = overwrite or not present
+                if outs != {want}:
+                    bad_cases.append(f"overwrite={overwrite}, ID already registered={present}: "
+                                     f"the object is {'written' if True in outs else 'not written'}"
+                                     f"{' on some paths' if len(outs) > 1 else ''}")
+    if not bad_cases:
+        run.ok(R, "OdxLinkDatabase.update", "overwrite=False keeps existing entries, "
+               "overwrite=True replaces (4 scenarios)", u.loc)
     else:
         run.violation(R, "OdxLinkDatabase.update", "overwrite-semantics",
-                      "update(overwrite=False) does not keep existing IDs via setdefault", u.loc)
-    if "for doc_frag in odx_id.doc_fragments" in s and "odx_id.local_id" in s:
+                      "update(overwrite=False) must keep existing IDs and add new ones, "
+                      "update(overwrite=True) must replace: " + "; ".join(bad_cases), u.loc)
+    if len(inner) == 1 and any(isinstance(x, ast.Attribute) and x.attr == "local_id"
+                               for x in ast.walk(inner[0])):
         run.ok(R, "OdxLinkDatabase.update", "every ID is registered in each of its fragments "
                "under its local ID", u.loc)
     else:
@@ -688,15 +715,52 @@ def _refresh(prog: Program, run: Run) -> None:
     cfg = CFG(f.node)
     C = "Database.refresh"
 
+    loops = [l for l in walk_no_nested(f.node) if isinstance(l, ast.For)]
+    KIND = {"comparam_subsets": "subset", "comparam_specs": "spec",
+            "diag_layer_containers": "dlc"}
+
+    def sources(e: ast.AST, depth: int = 0) -> Set[str]:
+        """the container lists an iterable draws from: `self.<list>` mentioned in the
+        expression, in the single definition of a local it names, or in a helper method of the
+        class it calls (chain(...), a generator with `yield from`, ...)"""
+        out: Set[str] = set()
+        for y in ast.walk(e):
+            if isinstance(y, ast.Attribute) and isinstance(y.value, ast.Name) and \
+                    y.value.id == "self" and y.attr in KIND:
+                out.add(KIND[y.attr])
+            if depth < 3 and isinstance(y, ast.Call) and isinstance(y.func, ast.Attribute) and \
+                    isinstance(y.func.value, ast.Name) and y.func.value.id == "self" and f.cls:
+                h = prog.lookup(f.cls, y.func.attr)
+                if h is not None and h is not f:
+                    out |= sources(h.node, depth + 1)
+            if depth < 3 and isinstance(y, ast.Name) and isinstance(y.ctx, ast.Load):
+                defs = [a.value for a in walk_no_nested(f.node) if isinstance(a, ast.Assign) and
+                        len(a.targets) == 1 and isinstance(a.targets[0], ast.Name) and
+                        a.targets[0].id == y.id]
+                if len(defs) == 1:
+                    out |= sources(defs[0], depth + 1)
+        return out
+
     def nodes(callee: str) -> List[Tuple[int, str]]:
+        """(CFG node, kind of container) for every call of the phase method; the kind is read
+        off what the loop that binds the receiver iterates over"""
         out = []
         for n in cfg.nodes:
             if n.stmt is None or n.kind != "stmt":
                 continue
             for x in walk_no_nested(n.stmt):
-                if isinstance(x, ast.Call) and call_name(x) == callee:
-                    out.append((n.id, ast.unparse(x.func.value) if isinstance(
-                        x.func, ast.Attribute) else ""))
+                if isinstance(x, ast.Call) and call_name(x) == callee and isinstance(
+                        x.func, ast.Attribute):
+                    recv = x.func.value
+                    kinds_: Set[str] = set()
+                    if isinstance(recv, ast.Name):
+                        for l in loops:
+                            if any(z is n.stmt for b_ in l.body for z in ast.walk(b_)) and any(
+                                    isinstance(t, ast.Name) and t.id == recv.id
+                                    for t in ast.walk(l.target)):
+                                kinds_ |= sources(l.iter)
+                    for k in sorted(kinds_) or [ast.unparse(recv)]:
+                        out.append((n.id, k))
         return out
     build = [n.id for n in cfg.nodes if n.stmt is not None and n.kind == "stmt" and
              "self._odxlinks.update(self._build_odxlinks())" in ast.unparse(n.stmt)]
